@@ -173,6 +173,12 @@ impl<'a> Replies<'a> {
     }
     /// the TLV container of a StatusInformation for a card: uid (hex) and application ids
     pub fn card_status(&self, uid: Option<&str>, apps: Option<&[Option<&str>]>, with_tlv: bool) -> Step {
+        self.card_status_ex(uid, apps, with_tlv, false)
+    }
+
+    /// `rich`: all the other fields a real terminal reports along with the card (track data, limits,
+    /// ATS/ATQA/SAK ...) are present at the top of their ranges
+    pub fn card_status_ex(&self, uid: Option<&str>, apps: Option<&[Option<&str>]>, with_tlv: bool, rich: bool) -> Step {
         let ty = self.table.get("StatusInformation");
         let tt = self.table.get("tlv::StatusInformation");
         let mut vals: Vec<Val> = ty.fields.iter().map(|_| Val::None).collect();
@@ -183,12 +189,37 @@ impl<'a> Replies<'a> {
             if let Some(u) = uid {
                 tv[tt.fields.iter().position(|f| f.name == "uuid").unwrap()] = Val::some(Val::Hex(u.to_string()));
             }
+            if rich {
+                for (n, v) in [
+                    ("maximum_pre_autorisation", Val::Int(999_999_999_999)),
+                    ("card_identification_item", Val::Hex("3f56a32065cc4dbe8330c37609f91996".into())),
+                    ("ats", Val::Hex("0c788074038031c073d631c0".into())),
+                    ("card_type", Val::Int(0xff)),
+                    ("sub_type", Val::Hex("fe04".into())),
+                    ("atqa", Val::Hex("0400".into())),
+                    ("sak", Val::Int(0x20)),
+                ] {
+                    tv[tt.fields.iter().position(|f| f.name == n).unwrap()] = Val::some(v);
+                }
+            }
             if let Some(a) = apps {
                 let subs: Vec<Val> = a.iter().map(|id| Val::Struct(vec![Val::None, id.map(|x| Val::some(Val::Hex(x.to_string()))).unwrap_or(Val::None)])).collect();
                 tv[tt.fields.iter().position(|f| f.name == "subs").unwrap()] = Val::List(subs);
             }
             let ti = ty.fields.iter().position(|f| f.name == "tlv").unwrap();
             vals[ti] = Val::some(Val::Struct(tv));
+        }
+        if rich {
+            for (n, v) in [
+                ("track_2_data", Val::Hex("6725904411001000142d24122012386013860f".into())),
+                ("card_number", Val::Int(u64::MAX)),
+                ("expiry_date", Val::Int(9912)),
+                ("card_sequence_number", Val::Int(9999)),
+                ("card_name", Val::Text("girocard".into())),
+                ("zvt_card_type", Val::Int(0xff)),
+            ] {
+                vals[ty.fields.iter().position(|f| f.name == n).unwrap()] = Val::some(v);
+            }
         }
         Step::Packet(self.enc("StatusInformation", &Val::Struct(vals)), "card-status".into())
     }
